@@ -55,6 +55,12 @@ func program(c Case) (cat.Program, error) {
 		// a template without any markup, mustache or special character
 		return cat.Program{Name: "plain-text", Files: map[string]string{"page.vuego": "just plain words\nsecond line of plain words"}, Feat: []string{"plain"}}, nil
 	}
+	if c.Prog == "big-inline" {
+		// an inline template whose output (about 100 KB) is larger than a 64 KiB buffer
+		return cat.Program{Name: "big-inline", Files: map[string]string{
+			"page.vuego": `<ul>` + strings.Repeat(`<li class="r">row {{ who }}</li>`, 3000) + `</ul><i data-m="end">END</i>`,
+		}, Data: map[string]vals.V{"who": vals.Str("W")}, Feat: []string{"deep", "big"}}, nil
+	}
 	if c.Prog == "huge-inline" {
 		// an inline template larger than any internal buffer or read limit (about 1.5 MB)
 		return cat.Program{Name: "huge-inline", Files: map[string]string{
@@ -616,6 +622,14 @@ func TestProp(t *testing.T) {
 		}
 		if e == "string" || e == "byte" || e == "reader" {
 			each(Case{Prog: "huge-inline", Entry: e, Mode: "ref"})
+			// output larger than a 64 KiB buffer, then a failure at the very end: nothing
+			// may have reached the destination
+			for di, d := range dests {
+				each(Case{Prog: "big-inline", Entry: e, Mode: "cancelmid", K: 1, Dest: d})
+				each(Case{Prog: "big-inline", Entry: e, Mode: "procfail", K: 1 + 2*(di%2), Dest: d})
+			}
+			each(Case{Prog: "big-inline", Entry: e, Mode: "cancelmid", K: 0})
+			each(Case{Prog: "big-inline", Entry: e, Mode: "ref"})
 		}
 		if e == "reader" {
 			each(Case{Prog: "huge-inline", Entry: e, Mode: "failat", K: 1_200_000})
